@@ -9,12 +9,14 @@ package vsched
 import (
 	"bytes"
 	"fmt"
+	"os"
 	"reflect"
 	"runtime"
 	"sort"
 	"strconv"
 	"sync"
 	"sync/atomic"
+	"time"
 
 	"github.com/consensys/gnark/internal/verifh/vh"
 )
@@ -74,6 +76,8 @@ type Sched struct {
 	Fail     bool // failure injection enabled (MaybeFail points become choices)
 	failed   bool
 	localSync bool
+	lastID    int
+	keep      []any
 	OnQuiesce func() // optional: called at every scheduling decision (state hashing hooks)
 }
 
@@ -129,6 +133,15 @@ func Run(x *vh.Ctx, o Options, body func()) *Result {
 		panic("vsched: nested / concurrent Run")
 	}
 	defer cur.Store(nil)
+	// watchdog: an execution that does not finish is a HARNESS failure (a controlled thread
+	// blocked natively); dump all goroutines and exit 4 — never a verdict about gnark
+	wd := time.AfterFunc(90*time.Second, func() {
+		buf := make([]byte, 1<<22)
+		n := runtime.Stack(buf, true)
+		fmt.Fprintf(os.Stderr, "VSCHED-WATCHDOG: execution stuck; choices so far %v\nscheduler: %s\n%s\n", x.Choices, s.debug(), buf[:n])
+		os.Exit(4)
+	})
+	defer wd.Stop()
 	s.spawn("main", body)
 	s.loop()
 	s.res.Threads = len(s.threads)
@@ -267,8 +280,22 @@ func (s *Sched) loop() {
 			s.res.Trace = append(s.res.Trace, strconv.Itoa(t.id))
 		}
 		last = t
+		s.lastID = t.id
 		t.resume <- struct{}{}
 	}
+}
+
+func (s *Sched) debug() string {
+	var b bytes.Buffer
+	fmt.Fprintf(&b, "steps=%d last=%v trace-tail=%v;", s.res.Steps, s.lastID, s.res.Trace[max(0, len(s.res.Trace)-20):])
+	for _, t := range s.threads {
+		l := "<running>"
+		if t.pending != nil {
+			l = t.pending.label
+		}
+		fmt.Fprintf(&b, " T%d(goid %d fin=%v %s)", t.id, t.goid, t.finished, l)
+	}
+	return b.String()
 }
 
 func invisible(kind, label string) bool {
@@ -343,6 +370,7 @@ func recvEnabled[T any](s *Sched, ch <-chan T) func() bool {
 			case _, ok := <-ch:
 				if !ok {
 					s.closed[id] = true
+					s.keep = append(s.keep, ch)
 					return true
 				}
 				panic("vsched: value received from a signal-only channel")
@@ -406,6 +434,7 @@ func Close[T any](ch chan<- T) {
 	s.park(t, &op{kind: "close", label: fmt.Sprintf("close %x", id&0xffff), enabled: func() bool { return true }})
 	close(ch)
 	s.closed[id] = true
+	s.keep = append(s.keep, ch) // keep the object alive: its address must not be reused by a new channel during this run
 }
 
 // Case is one alternative of a select.
